@@ -248,7 +248,7 @@ func runC18(c *Ctx) {
 		evalOrder(nums, api, "exhaustive-chunk")
 	}
 	c.Rep.Extra["boot_numbers_exhaustive"] = 65536
-	for i := 0; i < c.N(150, 3000); i++ {
+	for i := 0; i < c.N(150, 15000); i++ {
 		n := rng.Intn(12)
 		if rng.Intn(8) == 0 {
 			n = 0
@@ -308,7 +308,7 @@ func runC18(c *Ctx) {
 			evalLO(b[4:], "capture")
 		}
 	}
-	for i := 0; i < c.N(500, 20000); i++ {
+	for i := 0; i < c.N(500, 100000); i++ {
 		attrs := make([]byte, 4)
 		binary.LittleEndian.PutUint32(attrs, rng.Uint32()>>uint(rng.Intn(32)))
 		desc, _ := genString(rng, 24)
